@@ -65,6 +65,9 @@ inductive Obs where
   | drop (k : KP)                                -- `del buffer[:1]` (key matched nothing)
   | requeue (ks : List KP)                       -- app is done: rest of the key buffer pushed back
                                                  -- to the front of the input queue (typeahead)
+  | cpr (hid : Option Nat) (k : KP) (prev : List KP)   -- `_process_cpr_response`: handler called
+                                                 -- directly with `[k]` (`none`: nothing bound)
+  | cprRaise (hid : Nat) (k : KP) (prev : List KP)     -- … and its exception left process_keys
   | raise (hid : Nat) (seq prev : List KP)       -- handler invoked; its exception left process_keys
 deriving Repr, Inhabited, DecidableEq
 
@@ -206,6 +209,23 @@ def getNext (I : Iface σ) (ps : PS σ) : Option (KP × List KP) :=
 /-- `reset()` + `empty_queue()` in the `except` clause of process_keys -/
 def resetPS (ps : PS σ) : PS σ := { w := ps.w, buffer := [], queue := [], prev := [] }
 
+/-- `_process_cpr_response(key_press)`: the handler of the last active exact match for the single
+    key is called directly (`Binding.call`, not `_call_handler`): the key buffer, the previous key
+    sequence and the EditReadOnlyBuffer handling are bypassed — any exception leaves process_keys. -/
+def cprResponse (I : Iface σ) (ps : PS σ) (kp : KP) : PS σ × List Obs × Bool :=
+  let r := getMatches I ps.w [kp]
+  match r.2.getLast? with
+  | some b =>
+    let c := I.call r.1 ps.queue b [kp] ps.prev
+    match c.2.2 with
+    | .ok => ({ ps with w := c.1, queue := c.2.1 }, [.cpr (some b.hid) kp ps.prev], false)
+    | _ => ({ ps with w := c.1, queue := c.2.1 }, [.cprRaise b.hid kp ps.prev], true)
+  | none => ({ ps with w := r.1 }, [.cpr none kp ps.prev], false)
+
+/-- `if is_cpr: self._process_cpr_response(key_press) else: self._process_coroutine.send(key_press)` -/
+def dispatchKey (I : Iface σ) (ps : PS σ) (kp : KP) : PS σ × List Obs × Bool :=
+  if kp.isCpr then cprResponse I ps kp else send I ps kp
+
 /-- one iteration of `while not_empty():` in `process_keys`; `none` when the loop exits -/
 def pkStep (I : Iface σ) (ps : PS σ) : Option (PS σ × List Obs × Bool) :=
   if !notEmpty I ps then none
@@ -214,7 +234,7 @@ def pkStep (I : Iface σ) (ps : PS σ) : Option (PS σ × List Obs × Bool) :=
     | none => none
     | some (kp, q) =>
       let plain := !kp.isFlush && !kp.isCpr
-      let r := send I { ps with queue := q } kp
+      let r := dispatchKey I { ps with queue := q } kp
       if r.2.2 then
         some (resetPS r.1, Obs.pop kp :: (if plain then [Obs.before] else []) ++ r.2.1, true)
       else
